@@ -102,7 +102,7 @@ MarkStale(o, oldkeys) ==
 
 (* ------------------------------------------------------ case recording *)
 Ev(a, o) == [a |-> a, o |-> o, j |-> 0, i |-> 0, k |-> 0, x |-> 0, p |-> <<>>, w |-> <<>>, r |-> <<>>,
-             c |-> <<>>, n |-> <<>>]
+             c |-> <<>>, n |-> <<>>, d |-> <<>>]
 ItObs(j) == [live |-> cit'[j].live, o |-> cit'[j].o, pos |-> cit'[j].pos,
              rest |-> IF cit'[j].live THEN CRest(content'[cit'[j].o], cit'[j].pos) ELSE <<>>]
 Record(e) ==
@@ -298,7 +298,19 @@ Arith(name, o, wseq, x) ==
      IN /\ \A i \in Idx(m) : nc[i] \in Val
         /\ Step(o, m, nc, nv, ni, S)
   /\ UNCHANGED <<cit, mit>> /\ ok' = TRUE
-  /\ Record([Ev(name, o) EXCEPT !.w = IF name \in VecOps THEN wseq ELSE <<>>, !.x = x])
+  /\ Record([Ev(name, o) EXCEPT !.w = IF name \in VecOps THEN wseq ELSE <<>>, !.x = x,
+                                !.d = IF name \in VecOps
+                                      THEN SeqOf(KnownDeviation_DenseOperandStop(name, content[o], FunOf(wseq), n[o]), n[o])
+                                      ELSE <<>>])
+(* KNOWN DEVIATION (another property's finding, kept out of the model proper): when the operand is a DENSE *)
+(* vector the generic joint iterator reports Ok() = false at the first position where receiver and operand *)
+(* are both zero, so the loop stops there and the remaining positions keep their old values.  The replay   *)
+(* with dense operands accepts exactly this content (field d) as the known finding, anything else is a      *)
+(* violation.                                                                                              *)
+KnownDeviation_DenseOperandStop(name, c, w, m) ==
+  LET Z == {i \in Idx(m) : c[i] = 0 /\ w[i] = 0}
+      stop == IF Z = {} THEN m ELSE Min(Z)
+  IN [i \in Idx(m) |-> IF i < stop THEN AOp(name, c[i], w[i]) ELSE c[i]]
 WSeqs(m) == {w \in [1..m -> Val] : Cardinality({t \in 1..m : w[t] # 0}) <= WMax}
 
 (* it := v.ConstIterator() / v.Iterator() / v.ConstIteratorFrom(i) *)
